@@ -28,6 +28,8 @@ def build_demo(copy, demo, out, extra):
     os.makedirs(copy + "/seed", exist_ok=True)
     local = os.path.join(copy, "seed", os.path.basename(demo))
     shutil.copy(demo, local)
+    for h in os.listdir(os.path.dirname(demo)):       # helper headers delivered next to the demonstration
+        if h.endswith(".h"): shutil.copy(os.path.join(os.path.dirname(demo), h), os.path.join(copy, "seed", h))
     inc = "-I%s/include -I%s/src -I%s/src/cpp" % (copy, copy, copy)
     libs = "%s/_build/librtosc-cpp.a %s/_build/librtosc.a" % (copy, copy)
     if demo.endswith(".c"):
@@ -85,7 +87,10 @@ def main():
     d = os.path.join(VERIF, "seeded", sid)
     os.makedirs(d, exist_ok=True)
     shutil.copy(patch, os.path.join(d, "patch.diff"))
-    shutil.copy(demo, os.path.join(d, "demo" + os.path.splitext(demo)[1]))
+    if os.path.abspath(demo) != os.path.abspath(os.path.join(d, "demo" + os.path.splitext(demo)[1])):
+        shutil.copy(demo, os.path.join(d, "demo" + os.path.splitext(demo)[1]))
+    for h in os.listdir(os.path.dirname(demo)):
+        if h.endswith(".h") and os.path.dirname(demo) != d: shutil.copy(os.path.join(os.path.dirname(demo), h), os.path.join(d, h))
     json.dump(meta, open(os.path.join(d, "meta.json"), "w"), indent=1)
     print(json.dumps({k: meta[k] for k in ("seed", "confirmed", "demo_unchanged_exit", "demo_changed_exit", "repo_tests_with_change", "checks")}, indent=1))
     return 0
